@@ -4,8 +4,9 @@ def _load(n):
     sp = importlib.util.spec_from_file_location(n, os.path.join(os.path.dirname(__file__), n + '.py')); m = importlib.util.module_from_spec(sp); sp.loader.exec_module(m); return m
 META = {
  'functions': ['Array<int>, Array<Tracked> (Array.hpp): every public operation incl. growth/relocation, copy/move, merge-by-move, Clear/Reset/Detach',
+               'String<char>, StringStream<char> (String.hpp, StringStream.hpp): every public operation of the C14 harnesses incl. Detach / GetString hand-over',
                'Memory::Allocate / Deallocate / Dispose seam (Memory.hpp:160-249)'],
- 'bounds': 'the host harnesses of C14 (arrays) re-run with CBMC --memory-leak-check: after ONE arbitrary operation on a pre-state built through the public API '
+ 'bounds': 'the host harnesses of C14 (arrays, char strings and streams) re-run with CBMC --memory-leak-check: after ONE arbitrary operation on a pre-state built through the public API '
            '(capacity <= 4, symbolic size/contents/aliasing) and destruction of every object, no allocation is live; CBMC deallocated-object / double-free / invalid-free '
            'properties cover use-after-release and foreign releases; the Tracked ledger covers construct/destroy exactly once per element',
  'outside': 'failed JSON parses and malformed templates with the REAL Value / tag arrays (real container-kind Value and the template driver are beyond reach of CBMC here); '
@@ -16,7 +17,8 @@ def queries(tier):
     c14 = _load('C14')
     qs = []
     for q in c14.queries(tier):
-        if q.harness == 'C14_array.cpp' and q.kf_only is None:
+        if q.kf_only is not None: continue
+        if q.harness == 'C14_array.cpp' or (q.harness in ('C14_string.cpp', 'C14_stream.cpp') and q.defs.get('CHAR') == 'char'):
             q2 = copy.copy(q); q2.name = 'leak/' + q.name; q2.leak = True
             qs.append(q2)
     return qs
